@@ -146,13 +146,18 @@ pub fn c07_drain<const N: usize>() {
 }
 
 /// source iterator that counts how often it is pulled
-pub struct Src<const L: usize> { pub items: [Option<Tok>; L], pub pos: usize, pub len: usize, pub pulled: usize }
+pub struct Src<const L: usize> { pub items: [Option<Tok>; L], pub pos: usize, pub len: usize, pub pulled: usize, pub slack_lo: usize, pub slack_hi: Option<usize> }
 impl<const L: usize> Iterator for Src<L> {
     type Item = Tok;
     fn next(&mut self) -> Option<Tok> {
         self.pulled += 1;
         tok::fault_point();
         if self.pos < self.len && self.pos < L { let i = self.pos; self.pos += 1; self.items[i].take() } else { None }
+    }
+    /// any size_hint the Iterator contract allows (solver-chosen slack)
+    fn size_hint(&self) -> (usize, Option<usize>) {
+        let rem = self.len - self.pos;
+        (rem.saturating_sub(self.slack_lo), self.slack_hi.map(|s| rem.saturating_add(s)))
     }
 }
 
@@ -162,7 +167,7 @@ pub fn c07_extend<const N: usize, const L: usize>() {
     let (mut s, mut md) = any_set::<N>();
     let len = vf::any_usize();
     vf::assume(len <= L);
-    let mut src = Src::<L> { items: [const { None }; L], pos: 0, len, pulled: 0 };
+    let mut src = Src::<L> { items: [const { None }; L], pos: 0, len, pulled: 0, slack_lo: vf::any_usize(), slack_hi: if vf::any_bool() { Some(vf::any_usize()) } else { None } };
     let mut ks = [0u8; L];
     let mut sers = [0u16; L];
     let mut i = 0;
